@@ -290,6 +290,33 @@ func c05Tasks(tier string) []mc.Task {
 			}
 		}
 	}
+	// (iv'') case folding and U->T on the reference-guided path: one row in upper-case DNA, the other row
+	// every string over lower case, U/u, an ambiguity code (and '-' for the short lengths), each as reference
+	for _, fc := range []struct {
+		alpha string
+		l     int
+	}{{"aUugCn-", 3}, {"aUugCn", 4}, {"aUgt", 6}, {"cuGR", 7}} {
+		fc := fc
+		if fc.l == 7 && tier != "thorough" {
+			continue
+		}
+		for i := 0; i < len(fc.alpha); i++ {
+			first := fc.alpha[i]
+			ts = append(ts, mc.Task{Name: fmt.Sprintf("byref-folding#L%d/%c", fc.l, first), Run: func(c *mc.Ctx) {
+				upper := "ACGTACG"[:fc.l]
+				forEachStringLen(fc.alpha, fc.l, []byte{first}, func(s []byte) bool {
+					for _, code := range []int{align.GENETIC_CODE_STANDARD, align.GENETIC_CODE_VETEBRATE_MITO} {
+						for fr := 0; fr <= 2; fr++ {
+							for ref := 0; ref < 2; ref++ {
+								c05Check(c, c05Case{Kind: "byref", Seqs: []string{upper, string(s)}, Frame: fr, Code: code, Ref: ref})
+							}
+						}
+					}
+					return !c.Expired()
+				})
+			}})
+		}
+	}
 	if tier == "thorough" {
 		// 3 rows, L<=4, other codes
 		for l := 3; l <= 4; l++ {
@@ -724,7 +751,7 @@ func init() {
 		Level: "exploration",
 		Rule: cliStreamRule[1:] + " Command line: goalign translate --phase 0,1,2,-1 x --genetic-code (not given, standard, mitov, mitoi) x aligned / --unaligned / --ref-seq on 4 sets holding the codons on which the three tables differ: the output must be what Translate / TranslateByReference give for that frame and table. " + "bounded-exhaustive enumeration: (i) all 42^3 codons over IUPAC letters in both cases plus - . * ? X x Z 1 space 0xE9, x 3 genetic codes, through Sequence.Translate and Alignment.Translate, and every codon under the three codes in all 6 orders inside one process (a result must not depend on which code an earlier call used); " +
 			"(ii) all sequences of length 0..6 (quick) / 0..8 (thorough) over {A,T,G,R,-} x frames {0,1,2,-1} x 3 codes through Sequence/SeqBag/Alignment.Translate; " +
-			"(iii) CodonAlign for all nt rows of length 3..6/8 over ACGT with every placement of <=2 gap columns; (iv) TranslateByReference for all 2-row alignments L<=6/7 over {A,C,G,-} x frames x each reference, and for references whose codon is split by a run of 3 or 4 gaps (after its 1st or 2nd base, with and without a following codon) against every other row over {A,C,-}. " +
+			"(iii) CodonAlign for all nt rows of length 3..6/8 over ACGT with every placement of <=2 gap columns; (iv) TranslateByReference for all 2-row alignments L<=6/7 over {A,C,G,-} x frames x each reference, and for references whose codon is split by a run of 3 or 4 gaps (after its 1st or 2nd base, with and without a following codon) against every other row over {A,C,-}; and an upper-case DNA row beside every row of length 3,4,6(,7) over lower case, U/u and an ambiguity code, each as reference, standard and vertebrate mitochondrial tables (case folding and U->T on the reference-guided path). " +
 			"A case is non-trivial when the call succeeded and its full result was compared with the NCBI-table oracle (error-path and skipped cases are not counted); distinct = distinct (entry point, input, frame, code).",
 		Assumptions: []string{
 			"NCBI translation tables 1, 2, 5 entered in the harness as the canonical 64-letter strings are correct",
